@@ -142,8 +142,8 @@ class World:
         return {"oidc": self.oidc, "has_par": self.server.get_endpoint("pushed_authorization") is not None,
                 "methods": [m for m in meths if m in ("request_param", "public", "none")],
                 "methods_configured": bool(self.ep.client_authn_method),
-                "hooks": [m.__name__ for m in self.ep.post_parse_request],
-                "par_hooks": [m.__name__ for m in self.par.post_parse_request] if self.par else [],
+                "hooks": [m.__qualname__ for m in self.ep.post_parse_request],
+                "par_hooks": [m.__qualname__ for m in self.par.post_parse_request] if self.par else [],
                 "prov_algs": list(self.ctx.provider_info.get("request_object_signing_alg_values_supported") or []),
                 "ru_supported": self.ctx.provider_info.get("request_uri_parameter_supported", True) is not False,
                 "ttl": self.par.ttl if self.par else 0, "jar": jar, "clients": clients, "issuer": srv.ISSUER}
@@ -212,8 +212,9 @@ VALUE_ERRS = [("The pushed authorization request has expired", 12), ("Got a requ
               ("A request_uri outside the registered", 14), ("Not allowed '%s' algorithm used", 15)]
 EXC_TAG = {"ClientAuthenticationError": 1, "UnknownClient": 2, "UnAuthorizedClient": 3, "MissingSigningKey": 4,
            "NoSuitableSigningKeys": 5, "BadSignature": 6, "ValueError": 7, "ServiceError": 8, "KeyError": 9,
-           "BadSyntax": 10, "AttributeError": 11}
-DESC_TAG = [("Request object signing algorithm not allowed", 1), ("Trying to use unregistered response_type", 2),
+           "BadSyntax": 10, "AttributeError": 11, "IssuerNotFound": 16}
+DESC_TAG = [("Request object does not belong to the client", 10), ("request_uri not allowed in a pushed", 11),
+            ("Request object signing algorithm not allowed", 1), ("Trying to use unregistered response_type", 2),
             ("RedirectURIError", 3), ("unknown client", 4), ("Missing required attribute", 5),
             ("openid not in scope", 6), ("ParameterError", 7), ("response_type missing", 8)]
 
